@@ -185,11 +185,17 @@ func (rc *wsRPCClient) popInflight(rpcID string) (*sub, chan *RPCResponse) {
 	return nil, nil
 }
 
-func (rc *wsRPCClient) addActiveSub(s *sub, subscriptionID string) {
+func (rc *wsRPCClient) addActiveSub(s *sub, subscriptionID string) bool {
 	rc.mux.Lock()
 	defer rc.mux.Unlock()
+	if s.localID == nil || rc.configuredSubs[*s.localID] != s {
+		// Unsubscribed (or abandoned by Subscribe) after the confirmation was matched to it by popInflight.
+		// It must not become active again: nothing would remove it, and its notifications channel is closed.
+		return false
+	}
 	s.currentSubID = subscriptionID
 	rc.activeSubsBySubID[s.currentSubID] = s
+	return true
 }
 
 func (rc *wsRPCClient) getActiveSub(subID string) *sub {
@@ -456,8 +462,11 @@ func (rc *wsRPCClient) handleSubscriptionConfirm(ctx context.Context, inflightSu
 		}
 		return
 	}
-	log.L(ctx).Infof("Subscribed %s with server subscription ID '%s'", inflightSub.localID, subscriptionID)
-	rc.addActiveSub(inflightSub, subscriptionID)
+	if rc.addActiveSub(inflightSub, subscriptionID) {
+		log.L(ctx).Infof("Subscribed %s with server subscription ID '%s'", inflightSub.localID, subscriptionID)
+	} else {
+		log.L(ctx).Warnf("RPC[%s] <-- Subscription %s was removed before it was confirmed (serverId=%s)", rpcRes.ID.AsString(), inflightSub.localID, subscriptionID)
+	}
 	// all was good, if someone is waiting to be told, notify them
 	if resChl != nil {
 		resChl <- nil
